@@ -24,6 +24,7 @@ type FnResult struct {
 	Used        []string
 	Uncontracted []string
 	Notes       []string
+	Axioms      []string
 	Prelude     string
 	Decls       []string
 	Instrs      int
@@ -81,7 +82,7 @@ func newExec(p *Program, cs *ContractSet, fn *ssa.Function, ct *Contract) *Exec 
 		declSet: map[string]bool{}, inlined: map[string]bool{}, usedContracts: map[string]bool{},
 		maxPaths: 600, goalNames: map[string]int{}, callOrd: map[string]int{}, compIDs: map[string]int{}, compSorts: map[string]string{},
 		fnIDs: map[*ssa.Function]int{}, closures: map[string]*Closure{}, fieldRefs: map[int]fieldRefInfo{}, implPreds: map[string]*types.Interface{},
-		uncontracted: map[string]bool{}}
+		uncontracted: map[string]bool{}, usedAxioms: map[string]bool{}}
 	ex.u.extraDecls = p.spec.text
 	return ex
 }
@@ -104,6 +105,31 @@ func (p *Program) verifyFunctionWith(cs *ContractSet, ct *Contract, findings map
 	ex := newExec(p, cs, fn, ct)
 	ex.nopanic = ct.NoPanic
 	ex.findings = findings
+	if len(ct.Allocs) > 0 {
+		ex.allocHook = func(st *State, fc *FnCtx, in ssa.Instruction, n Term, elem types.Type) {
+			if !fc.top {
+				return
+			}
+			env := ex.specEnvAt(st, fc)
+			env.names["n"] = tv{T: n, Ty: types.Typ[types.Int]}
+			env.names["esize"] = tv{T: bv64(ex.prog.sizeof(elem)), Ty: types.Typ[types.Int]}
+			saved := ex.curEnv
+			ex.curEnv = env
+			for i, cl := range ct.Allocs {
+				t, err := env.evalBool(cl.Text)
+				if err != nil {
+					ex.specError(cl, err)
+					continue
+				}
+				ord := 0
+				if in != nil {
+					ord = fc.instrOrd[in]
+				}
+				ex.goal(st, "alloc", fmt.Sprintf("%s#alloc%d@%s%d", fc.prefix, i+1, instrKind(in), ord), t, ct.clauseProps(cl), ex.posOfOpt(in), "allocation size bound: "+cl.Text, cl)
+			}
+			ex.curEnv = saved
+		}
+	}
 	prefix := shortFn(ct.Func)
 	fc := ex.newFnCtx(fn, ct, true, prefix)
 	// detached loop contracts
@@ -145,6 +171,9 @@ func (p *Program) verifyFunctionWith(cs *ContractSet, ct *Contract, findings map
 		res.Uncontracted = append(res.Uncontracted, n)
 	}
 	res.Notes = ex.notes
+	for n := range ex.usedAxioms {
+		res.Axioms = append(res.Axioms, n)
+	}
 	res.Paths = ex.paths + 1
 	res.Prelude = ex.u.Prelude() + ex.implAxioms()
 	res.Decls = ex.decls
@@ -172,6 +201,7 @@ func (ex *Exec) runTop(fc *FnCtx) {
 		heap: &HeapView{m: map[string]Term{}, epoch: 0}, nonnil: map[string]bool{}, open: map[*ssa.BasicBlock]*loopCtx{}}
 	a0 := ex.fresh("A0", sInt)
 	st.alloc = a0
+	st.heapBound = a0
 	st.assume(mk(sBool, "<=", intLit(maxGlobals), a0))
 	names := map[string]tv{}
 	for i, p := range fn.Params {
@@ -206,6 +236,7 @@ func (ex *Exec) runTop(fc *FnCtx) {
 		}
 		st.assume(t)
 	}
+	ex.assumeUses(st, env, ct.Uses)
 	entry := &entryInfo{heap: st.heap.clone(), alloc: st.alloc, lets: map[string]tv{}}
 	for _, cl := range ct.Lets {
 		// let name = expr
@@ -274,6 +305,7 @@ func (ex *Exec) checkPost(st *State, fc *FnCtx, results []Val, retN int) {
 	env := &SpecEnv{ex: ex, st: st, heap: st.heap, old: st.entry.heap, names: names, oldNames: fc.names, pkg: fnPkg(fn), alloc: st.alloc, oldAlloc: st.entry.alloc}
 	ex.curEnv = env
 	defer func() { ex.curEnv = nil }()
+	ex.assumeUses(st, env, ct.PostUses)
 	ex.cover(st, fc.prefix+"#cover.return", tTrue, ct.Props, "some return path is reachable under the assumed contracts")
 	for i, cl := range ct.Ensures {
 		t, err := env.evalBool(cl.Text)
